@@ -27,6 +27,14 @@ bxor_f = z3.Function("bxor", z3.IntSort(), z3.IntSort(), z3.IntSort())
 BIT_POSITIONS = [1, 2, 3, 4, 5, 6, 7, 8, 12, 14, 16, 21, 24, 28, 31, 32, 35, 40, 42, 48, 49, 56, 63, 64]
 
 
+len_of_f = z3.Function("len_of", Val, z3.IntSort())
+elem_f = z3.Function("elem", Val, z3.IntSort(), Val)
+
+
+def field_f(i, n):
+    return z3.Function(f"unpack_{i}_of_{n}", Val, Val)
+
+
 def as_int(eng, v, node=None):
     v = eng.deref(v)
     if isinstance(v, VInt):
@@ -1010,7 +1018,7 @@ def m_len(eng, args, kwargs, node, frame):
         r = fresh_int("len")
         eng.assume(r >= 0)
         if isinstance(v, VOpaque):
-            r2 = z3.Function("len_of", Val, z3.IntSort())(v.t)
+            r2 = len_of_f(v.t)
             eng.assume(r2 >= 0)
             return VInt(r2)
         return VInt(r)
@@ -1553,6 +1561,19 @@ def call_method(eng, recv, r, name, args, kwargs, node, frame):
         rng = getattr(r, "range", None)
         if name in ("debug", "info", "warning", "error", "exception", "critical", "log") and "logger" in (r.tag or "").lower():
             return NONE      # logging: arguments were evaluated; the call itself has no modelled effect
+        if name == "get" and len(args) == 2 and not kwargs and not eng.spec:
+            # mapping.get(key, default): a stored value (assumed never None) or the default
+            res = eng.opaque_call(f"<method get of {r.tag or 'opaque'}>", [], node, havoc_args=False)
+            dflt = eng.deref(args[1])
+            if isinstance(res, VOpaque):
+                if isinstance(dflt, VNone):
+                    pass
+                elif isinstance(dflt, VOpaque):
+                    eng.assume(z3.Implies(isnone_f(res.t), isnone_f(dflt.t)))
+                else:
+                    eng.assume(z3.Not(isnone_f(res.t)))
+                eng.vf.note_assumption("values stored in mappings read with .get(key, default) are never None")
+            return res
         con = C.lookup("<opaque>", f"{r.tag}.{name}")
         if con is not None:
             return eng.call_contract(con, [recv] + args, kwargs, node, frame)
@@ -2073,3 +2094,73 @@ def m_fspath(eng, args, kwargs, node, frame):
         eng.raise_exc("TypeError", node)
     eng.vf.note_assumption("os.fspath(p) is treated as the identity on paths")
     return args[0]
+
+
+# ----------------------------------------------------------------------------------------------
+# hashlib: a hash object is the byte string fed to it so far; digests are uninterpreted functions of it
+# ----------------------------------------------------------------------------------------------
+@model("hashlib.sha1", "hashlib.sha256", "sha1", "sha256")
+def m_newhash(eng, args, kwargs, node, frame):
+    init = eng.deref(args[0]) if args else seq_const(b"")
+    if not isinstance(init, VSeq):
+        return eng.opaque_call("hashlib(untracked)", [], node, havoc_args=False)
+    return eng.alloc(VObj("HashObj", {"data": VSeq(init.at, init.n, "bytes", init.arr, "int", init.off)}))
+
+
+@objm("HashObj", "update")
+def hash_update(eng, recv, args, kwargs, node):
+    o = eng.heap[recv.addr]
+    d = eng.deref(args[0])
+    if not isinstance(d, VSeq):
+        raise OutOfSubset(node, f"hash.update({d!r})")
+    nf = dict(o.fields)
+    nf["data"] = seq_concat(o.fields["data"], d, "bytes")
+    eng.heap[recv.addr] = VObj(o.cls, nf, o.ident)
+    return NONE
+
+
+@objm("HashObj", "digest", "hexdigest")
+def hash_digest(eng, recv, args, kwargs, node):
+    return VOpaque(tag="digest")
+
+
+@objm("HashObj", "copy")
+def hash_copy(eng, recv, args, kwargs, node):
+    o = eng.heap[recv.addr]
+    return eng.alloc(VObj(o.cls, dict(o.fields)))
+
+
+@model("stat.S_ISDIR", "stat.S_ISREG", "stat.S_ISLNK")
+def m_stat_is(eng, args, kwargs, node, frame):
+    name = node.func.attr if isinstance(node.func, ast.Attribute) else node.func.id
+    want = {"S_ISDIR": 0o040000, "S_ISREG": 0o100000, "S_ISLNK": 0o120000}[name]
+    t = as_int(eng, args[0])
+    if t is None:
+        return VBool(fresh_bool(name))
+    return VBool(and_const(t, 0o170000) == want)
+
+
+@model("setattr")
+def m_setattr(eng, args, kwargs, node, frame):
+    obj, name, value = args[0], args[1], args[2]
+    if isinstance(name, VStr) and name.s is not None:
+        eng.set_attr(obj, name.s, value, node)
+        return NONE
+    o = eng.deref(obj)
+    if isinstance(o, VObj) and C.CLASS_SPECS.get(o.cls) is not None:
+        # attribute name computed at run time: a write to some attribute that is NOT one of the fields the class
+        # spec declares (made checkable by a syntactic guard in the contract file)
+        eng.vf.note_assumption(f"setattr() with a computed name on {o.cls} does not write a field declared in its class spec (guarded syntactically)")
+        return NONE
+    return eng.opaque_call("setattr", [obj], node)
+
+
+@model("typing.NewType", "NewType")
+def m_newtype(eng, args, kwargs, node, frame):
+    """typing.NewType(name, tp) is the identity function at run time."""
+    return VFunc("native", fn=lambda eng2, a, kw, nd, fr: a[0], name="NewType-identity")
+
+
+@model("typing.cast", "cast")
+def m_cast(eng, args, kwargs, node, frame):
+    return args[1]
